@@ -13,6 +13,7 @@ mod c06;
 mod c07;
 mod c08;
 mod c09;
+mod c10;
 mod c19;
 mod prog;
 
@@ -115,6 +116,7 @@ fn main() {
         "c07" => c07::run(&ctx),
         "c08" => c08::run(&ctx),
         "c09" => c09::run(&ctx),
+        "c10" => c10::run(&ctx),
         "c19" => c19::run(&ctx),
         "c19dump" => c19::dump(&ctx),
         _ => {
